@@ -53,3 +53,32 @@ func Collisions() {
 		DomainGroups = findGroups(func(a, b byte) string { return "d" + string([]byte{a, b}) + ".org" })
 	})
 }
+
+var (
+	tailMu    sync.Mutex
+	tailCache = map[string][][]string{}
+)
+
+// CollidingTails returns groups of two-character tails t such that
+// FastHash(prefix+t) is the same inside a group.  Because the hash is
+// computed left to right, prefix+t1+suffix and prefix+t2+suffix collide for
+// every suffix: whole rule texts, patterns and host names built this way land
+// in the same bucket of any table keyed by FastHash.
+func CollidingTails(prefix string) [][]string {
+	tailMu.Lock()
+	defer tailMu.Unlock()
+	if g, ok := tailCache[prefix]; ok {
+		return g
+	}
+	var groups [][]string
+	for _, g := range findGroups(func(a, b byte) string { return prefix + string([]byte{a, b}) }) {
+		var tails []string
+		for _, s := range g {
+			tails = append(tails, s[len(prefix):])
+		}
+		groups = append(groups, tails)
+	}
+	tailCache[prefix] = groups
+
+	return groups
+}
